@@ -8,7 +8,7 @@ import e2e
 import gen_models as G
 from core import Family, q, unq, run_model, run_impl, cmp_tree
 
-GEN_FILES = ["Simulate.v"]
+GEN_FILES = ["Simulate.v", "RandomChoiceGen.v"]
 TRUSTED = e2e.TRUSTED + [
     "Model/RandomChoice.v (jax.random.choice as inverse CDF; lcm's key handling as split-tree paths) is hand-written: tied by families choice_replay and draws_replay",
     "jax.random.split / uniform (threefry) as a source of independent uniforms: NOT modelled — frequencies and independence are only tested",
